@@ -239,8 +239,25 @@ func c16Run(c *hx.Ctx, tier, unit string) {
 			for _, det := range [][]string{nil, {"-nodetach"}} {
 				for _, nc := range [][]string{nil, {"-nocerts"}} {
 					for _, ex := range extras {
+						type cont struct {
+							n int
+							b []byte
+						}
+						var cs []cont
 						for _, n := range contents {
+							cs = append(cs, cont{n, fill(n, 0x41)})
+						}
+						if ex == nil && nc == nil {
+							for i, tc := range trickyContents() {
+								cs = append(cs, cont{-1 - i, tc.b})
+							}
+						}
+						for _, cn := range cs {
+							n := cn.n
 							for ci, cert := range certs {
+								if n < 0 && ci != 0 {
+									continue
+								}
 								var args []string
 								args = append(args, cap...)
 								args = append(args, det...)
@@ -248,7 +265,7 @@ func c16Run(c *hx.Ctx, tier, unit string) {
 								args = append(args, ex...)
 								label := fmt.Sprintf("openssl %s %v content=%d key=k%d cert=%d", tool, args, n, k, ci)
 								c.Tick()
-								blob, err := sess.Sign(tool, keys.K(k), cert, fill(n, 0x41), args...)
+								blob, err := sess.Sign(tool, keys.K(k), cert, cn.b, args...)
 								if err != nil {
 									c.Note("producer failed for %s: %v", label, err)
 									continue
